@@ -468,6 +468,7 @@ func (e *env) abciSweep(t *testing.T) {
 	}
 	s.Ctx = s.App.GetContextForFinalizeBlock(nil)
 	e.querySweep(s, w)
+	e.queryTransport(s, w)
 	e.ibcPacketSweep(s, w)
 }
 
